@@ -42,6 +42,9 @@ pub mod msp;
 pub mod neighbors;
 pub mod vmer;
 
+#[cfg(feature = "verif_hooks")]
+pub mod verif_hooks;
+
 #[cfg(any(target_arch = "x86", target_arch = "x86_64"))]
 mod bitops_avx2;
 
